@@ -49,6 +49,33 @@ class Source:
         self._index_exceptions()
 
     # ---------------------------------------------------------------- lookup
+    def local_order(self, node):
+        """locals of the function (parameters excluded) in the order of their first binding in the source text"""
+        params = {a.arg for a in node.args.args + node.args.kwonlyargs + node.args.posonlyargs}
+        if node.args.vararg:
+            params.add(node.args.vararg.arg)
+        if node.args.kwarg:
+            params.add(node.args.kwarg.arg)
+        locs = self.local_names(node)
+        first = {}
+        for n in ast.walk(node):
+            if isinstance(n, ast.Name) and isinstance(n.ctx, ast.Store) and n.id in locs and n.id not in params:
+                pos = (n.lineno, n.col_offset)
+                if n.id not in first or pos < first[n.id]:
+                    first[n.id] = pos
+        return [k for k, _ in sorted(first.items(), key=lambda kv: kv[1])]
+
+    def alpha_rename(self, node, mapping):
+        """a copy of the function with local names renamed (consistently, every occurrence)"""
+        import copy
+
+        class R(ast.NodeTransformer):
+            def visit_Name(self, n):
+                if n.id in mapping:
+                    return ast.copy_location(ast.Name(id=mapping[n.id], ctx=n.ctx), n)
+                return n
+        return ast.fix_missing_locations(R().visit(copy.deepcopy(node)))
+
     def local_names(self, node):
         """names assigned anywhere in the function (they are locals: reading one before assignment is UnboundLocalError)"""
         names = set()
